@@ -2041,6 +2041,12 @@ def run(ctx):
                         "user callables do not mutate their arguments or captured arrays (in-place numpy mutation inside user callables is out of scope)",
                         "behavioural fingerprints are compared exactly (same code path, same inputs, single thread)"]
     ctx.c11_shrunk = {}
+    # generated user programs on originals whose name is inferred from the Python variable (first look-up at different times)
+    from harness.props import c11_names
+    c11_names.inferred_name_programs(ctx, cuqi, 60 if not thorough else 600)
+    # lazily inferred default geometry (Model/C11_geom.lean, `geo` protocol): tie + history-independence oracle
+    from harness.props import c11_geom
+    c11_geom.geometry_programs(ctx, cuqi, 30 if not thorough else 600, thorough)
     tracer = Tracer(cuqi)
     tracer.install()
     try:
